@@ -4,6 +4,7 @@
 package main
 
 import (
+	"encoding/hex"
 	"encoding/json"
 	"flag"
 	"fmt"
@@ -22,6 +23,9 @@ import (
 type TE struct {
 	P string `json:"p"`
 	D bool   `json:"d"`
+	K string `json:"k,omitempty"` // "" (file or directory by D) | lf | ld | lb: symbolic link to a file, a directory, dangling
+	L string `json:"l,omitempty"` // link target
+	V bool   `json:"v,omitempty"` // a path seen through a linked directory: part of the view, not created
 }
 
 type Rule struct {
@@ -38,6 +42,7 @@ type Case struct {
 	S      string   `json:"s"`
 	Elems  []string `json:"elems,omitempty"`
 	Pat    string   `json:"pat,omitempty"`
+	Hex    bool     `json:"hex,omitempty"` // pat and s are hex-encoded byte strings
 	P      string   `json:"p"`
 	F      string   `json:"f"`
 	Dir    string   `json:"dir,omitempty"`
@@ -52,9 +57,17 @@ type Case struct {
 	Outs  []string `json:"outs,omitempty"`
 	Deps  []string `json:"deps,omitempty"`
 	Bool  bool     `json:"bool"`
+	FBool bool     `json:"fbool"`          // match: filepath.Match
+	FErr  string   `json:"ferr,omitempty"` // match: filepath.Match
 	Err   string   `json:"err,omitempty"` // "", nofiles, listerr, badpat, builderr, other:<text>
 	// build: every path under the case directory that differs after the build
 	Changed []string `json:"changed,omitempty"`
+	// fileset/build: listed names whose directory physically lies outside the source tree
+	Outside []string `json:"outside,omitempty"`
+	// buildkey: the package directory the raw repo-map key names lies outside src, and the
+	// rule declared in the build file there was loaded and built
+	PkgOutside bool `json:"pkgoutside,omitempty"`
+	Loaded     bool `json:"loaded,omitempty"`
 	Crash string   `json:"crash,omitempty"`
 }
 
@@ -134,6 +147,7 @@ var filePool = []string{
 	"p/d/x", "p/d2/x", "p/dx", "p/a.txt", "p/d/e/x", "p/.git/c", "p/d/b.caco3",
 	"dir/a.txt", "dir2/b.txt", "dirfile", "p/dir/a.txt", "p/dir2/b.txt", "p/dirfile",
 	"e", ".DS_Store", "p/COPYING",
+	"\u00e9.txt", "d/\u4e16.go", "d*", "[x]", "d/[x", "d/\\x", "q.txt",
 }
 
 var selPool = []string{
@@ -141,12 +155,14 @@ var selPool = []string{
 	"nonexist/**", "zzz", "", ".", "d/", "*.txt", "*/*", "dir*", "dir/**", "dir*/*",
 	"../**", "/d/*", "d/../d2/*", "*/*/*", ".git/**", "d/.git/**", "d/e/**", "a.txt/**",
 	"d/COPYING/**", "**/x", "d?/x", "*x",
+	"d[0-9]/x", "d[^2]/x", "[ad]*", "d\\*", "d[", "d/[x", "*[", "\\", "d[/]x", "d\\/x", "\u00e9*", "?.txt", "d/[^y]*", "[^a]*", "d/\\x", "[d]/[e]/x", "*/[", "d[0-9]/**",
 }
 
 var ignPool = []string{
 	"d/", "d", "d2/", "*.txt", "d/*", "d*", "/", "./", "d/e/", "dx", "x", "*/x", "d/e",
 	"dir/", "dir2/", "dir", "dir*", "dirfile", "d-/", "d./", "d/e", "../d/", "/d/", "d//",
 	"d/./", "?/", "*/", "e/", "a.txt/",
+	"d[0-9]/", "[ad].txt", "*.t[x]t", "d[", "[", "d/[^y]*", "\u00e9.txt", "?.txt", "d[^a]x", "d\\x", "\\", "d/\\x", "[a-", "d[0-9]/*",
 }
 
 var filesPool = []string{"a.txt", "/q/r", "../z", "d/x", "", "/", "./e", "//p//a.txt", "d/"}
@@ -226,7 +242,15 @@ func genCases(seed uint64, n int, thorough bool) []Case {
 	if thorough {
 		cleanLen = 9
 	}
+	kk := 0
 	for _, s := range allStrings("ab./", cleanLen) {
+		if !thorough && len(s) == cleanLen {
+			// the longest strings: one quarter per run, chosen by the seed
+			kk++
+			if kk%4 != int(seed%4) {
+				continue
+			}
+		}
 		add(Case{Stream: "clean", Op: "clean", S: s})
 	}
 	// path.Join on pairs and triples of short strings.
@@ -284,6 +308,37 @@ func genCases(seed uint64, n int, thorough bool) []Case {
 				continue
 			}
 			add(Case{Stream: "match", Op: "match", Pat: p, S: s})
+		}
+	}
+
+	// classes, escapes and malformed patterns.
+	cpats := allStrings("ab[]^-\\*?", 4)
+	cstrs := []string{"", "a", "b", "ab", "ba", "-", "]", "^", "\\", "*", "a/b", "[", "c"}
+	k = 0
+	for _, p := range cpats {
+		if len(p) == 4 {
+			k++
+			if !thorough && k%16 != int(seed%16) {
+				continue
+			}
+		}
+		for _, s := range cstrs {
+			add(Case{Stream: "match-class", Op: "match", Pat: p, S: s})
+		}
+	}
+	for _, p := range []string{"[a-c]x", "[c-a]x", "[^a-c]*", "a[b-b]c", "[\\]]", "[\\-a]", "[a\\-c]", "[a-\\c]", "x[", "x[a", "x[a-", "x[a-]",
+		"[]", "[^]", "[^]]", "[]]", "[a]]", "[-a]", "[a-]", "*[", "*\\", "a\\", "\\a", "\\*", "\\?", "\\[", "[*]", "[?]", "[/]", "a[/]b", "a[^x]b", "*[^a]", "[a-z]*[0-9]", "d/[^y]*", "d[0-9]/x"} {
+		for _, s := range []string{"", "a", "ax", "bx", "dx", "abc", "]", "-", "\\", "*", "?", "[", "/", "a/b", "axb", "q1", "qq", "d/x", "d/y", "d2/x"} {
+			add(Case{Stream: "match-class", Op: "match", Pat: p, S: s})
+		}
+	}
+	// multi-byte runes and invalid UTF-8 (hex-encoded).
+	upats := []string{"?", "??", "???", "*?", "?*", "[\u00e0-\u00ff]", "[^\u00e9]", "\u00e9", "\\\u00e9", "[\u00e9]", "?\u00e9", "[\u4e16-\u754c]", "[a-\u00ff]",
+		"[\xff]", "[\xc3]", "\xc3", "\xc3?", "[\xc3\xa9-\xc3\xbf]", "*\xa9", "[^\xff]", "[a-\xff]", "\xff", "?\xa9"}
+	ustrs := []string{"", "a", "\u00e9", "\u00e9a", "a\u00e9", "\u4e16", "\u4e16\u754c", "e\u0301", "/", "\u00e9/\u4e16", "\xff", "\xc3", "\xc3\xa9\xa9", "\xa9", "\xc3(", "\xf0\x9f\x98\x80", "\xed\xa0\x80", "\xef\xbf\xbd"}
+	for _, p := range upats {
+		for _, s := range ustrs {
+			add(Case{Stream: "match-utf8", Op: "match", Hex: true, Pat: hex.EncodeToString([]byte(p)), S: hex.EncodeToString([]byte(s))})
 		}
 	}
 
@@ -405,6 +460,45 @@ func genCases(seed uint64, n int, thorough bool) []Case {
 		}
 	}
 
+	// symbolic links in the source tree: to a file inside, to a file outside the
+	// workspace, to a directory outside, dangling, to a directory inside.
+	linkBase := []string{"d/x", "d/y.txt", "d2/x", "a.txt", "p/q.txt"}
+	mkLinks := func(which int) []TE {
+		t := treeEntries(linkBase)
+		if which == 0 || which == 2 {
+			t = append(t, TE{P: "lf", K: "lf", L: "d/x"}, TE{P: "lo", K: "lf", L: "../outside/secret.txt"},
+				TE{P: "lb", K: "lb", L: "nowhere"}, TE{P: "p/lo2", K: "lf", L: "../../outside/secret.txt"})
+		}
+		if which == 0 || which == 1 {
+			t = append(t, TE{P: "ld", K: "ld", L: "../outside"}, TE{P: "ld/secret.txt", V: true},
+				TE{P: "ld/sub", D: true, V: true}, TE{P: "ld/sub/deep.txt", V: true},
+				TE{P: "d/ldi", K: "ld", L: "../d2"}, TE{P: "d/ldi/x", V: true})
+		}
+		sort.Slice(t, func(i, j int) bool { return t[i].P < t[j].P })
+		return t
+	}
+	ltid := 300000
+	for which := 0; which < 3; which++ {
+		ltid++
+		tree := mkLinks(which)
+		for _, sel := range []string{"**", "*", "l*", "ld/*", "ld/**", "l?/*", "ld/sub/**", "ld/sub/*", "d/**", "d/*/x",
+			"d/ldi/*", "d/ldi/**", "lo", "lb", "lb/**", "lf/**", "*/*", "*/*/*", "lo/**", "l[a-z]/s*"} {
+			for _, ign := range []string{"", "ld/", "l*", "lb"} {
+				for fi, files := range [][]string{{}, {"ld/secret.txt", "lo", "lb"}} {
+					if fi == 1 && ign != "" {
+						continue
+					}
+					ig := []string{}
+					if ign != "" {
+						ig = []string{ign}
+					}
+					add(Case{Stream: "links", Op: "fileset", P: "", Tree: tree, TreeID: ltid,
+						Rule: &Rule{Name: "fs", Files: files, Select: []string{sel}, Ignore: ig}})
+				}
+			}
+		}
+	}
+
 	// end-to-end builds of a workspace whose build file carries the rule.
 	nb := n / 8
 	if nb < 60 {
@@ -424,6 +518,31 @@ func genCases(seed uint64, n int, thorough bool) []Case {
 			Ignore: pickSome(r, []string{"dir/", "dir2/", "sub/", "*.txt", "../", "/"}, 0, 2),
 		}
 		add(Case{Stream: "build", Op: "build", P: "pkg", Tree: treeEntries(files), TreeID: btid, Rule: rule})
+	}
+	// builds over a package holding symbolic links (to a directory outside the workspace, to a
+	// file outside, dangling).
+	for _, sel := range []string{"**", "ld/*", "l*", "ld/sub/**", "lo", "*"} {
+		btid++
+		t := treeEntries([]string{"pkg/BUILD.caco3", "pkg/a.txt", "pkg/dir/a.txt"})
+		t = append(t, TE{P: "pkg/ld", K: "ld", L: "../../outside"}, TE{P: "pkg/ld/secret.txt", V: true},
+			TE{P: "pkg/ld/sub", D: true, V: true}, TE{P: "pkg/ld/sub/deep.txt", V: true},
+			TE{P: "pkg/lo", K: "lf", L: "../../outside/secret.txt"}, TE{P: "pkg/lb", K: "lb", L: "nowhere"})
+		sort.Slice(t, func(i, j int) bool { return t[i].P < t[j].P })
+		add(Case{Stream: "build-links", Op: "build", P: "pkg", Tree: t, TreeID: btid,
+			Rule: &Rule{Name: "fs", Files: []string{}, Select: []string{sel}, Ignore: []string{}}})
+	}
+	// end-to-end builds with unclean / climbing repo-map keys (the loader's package paths).
+	for _, key := range []string{"pkg", "./pkg", "pkg/", "pkg/../pkg", "/pkg", "pkg//sub", "../vendor/lib", "a/../..", "../../outside",
+		"..", "pkg/../../vendor", "../src/pkg"} {
+		for _, rule := range []*Rule{
+			{Name: "fs", Files: []string{"a.txt"}, Select: []string{}, Ignore: []string{}},
+			{Name: "fs", Files: []string{}, Select: []string{"**"}, Ignore: []string{}},
+			{Name: "fs", Files: []string{}, Select: []string{"*.txt"}, Ignore: []string{}},
+			{Name: "../fs", Files: []string{"dir/a.txt"}, Select: []string{"dir/**"}, Ignore: []string{"dir2/"}},
+		} {
+			btid++
+			add(Case{Stream: "build-keys", Op: "buildkey", P: key, TreeID: btid, Rule: rule})
+		}
 	}
 	return cs
 }
@@ -450,8 +569,23 @@ func buildTree(root string, tree []TE) error {
 	if err := os.MkdirAll(filepath.Join(root, "src"), 0o755); err != nil {
 		return err
 	}
+	os.MkdirAll(filepath.Join(root, "outside", "sub"), 0o755)
+	os.WriteFile(filepath.Join(root, "outside", "secret.txt"), []byte("secret"), 0o644)
+	os.WriteFile(filepath.Join(root, "outside", "sub", "deep.txt"), []byte("deep"), 0o644)
 	for _, e := range tree {
 		p := filepath.Join(root, "src", filepath.FromSlash(e.P))
+		if e.V {
+			continue
+		}
+		if e.K != "" {
+			if err := os.MkdirAll(filepath.Dir(p), 0o755); err != nil {
+				return err
+			}
+			if err := os.Symlink(e.L, p); err != nil {
+				return err
+			}
+			continue
+		}
 		if e.D {
 			if err := os.MkdirAll(p, 0o755); err != nil {
 				return err
@@ -480,9 +614,18 @@ func runCase(c *Case, scratch string, built map[int]string) {
 	case "pjoin":
 		c.Out = path.Join(c.Elems...)
 	case "match":
-		ok, err := path.Match(c.Pat, c.S)
+		pat, str := c.Pat, c.S
+		if c.Hex {
+			pb, _ := hex.DecodeString(c.Pat)
+			sb, _ := hex.DecodeString(c.S)
+			pat, str = string(pb), string(sb)
+		}
+		ok, err := path.Match(pat, str)
 		c.Bool = ok
 		c.Err = projErr(err)
+		fok, ferr := filepath.Match(pat, str)
+		c.FBool = fok
+		c.FErr = projErr(ferr)
 	case "rel":
 		c.Out = caco3.VerifMakeRelPath(c.P, c.F)
 	case "abs":
@@ -516,8 +659,11 @@ func runCase(c *Case, scratch string, built map[int]string) {
 		if err == nil && out != name+".fileset" {
 			c.Err = "other:out name " + out
 		}
+		c.Outside = physicallyOutside(filepath.Join(root, "src"), files)
 	case "build":
 		runBuild(c, scratch)
+	case "buildkey":
+		runBuildKey(c, scratch)
 	case "rule":
 		var rule interface{}
 		a, b := c.Fields[0], c.Fields[1]
@@ -541,6 +687,29 @@ func runCase(c *Case, scratch string, built map[int]string) {
 			c.Err = "other:" + err.Error()
 		}
 	}
+}
+
+// physicallyOutside lists the names whose containing directory, with
+// symbolic links resolved, is not inside the source tree.
+func physicallyOutside(src string, names []string) []string {
+	realSrc, err := filepath.EvalSymlinks(src)
+	if err != nil {
+		return nil
+	}
+	var out []string
+	for _, n := range names {
+		if n == "" || n == "." {
+			continue
+		}
+		dir, err := filepath.EvalSymlinks(filepath.Dir(filepath.Join(src, filepath.FromSlash(n))))
+		if err != nil {
+			continue
+		}
+		if dir != realSrc && !strings.HasPrefix(dir, realSrc+"/") {
+			out = append(out, n)
+		}
+	}
+	return out
 }
 
 type snapEnt struct {
@@ -634,6 +803,72 @@ func runBuild(c *Case, scratch string) {
 		if err := json.Unmarshal(bs, &list); err != nil {
 			c.Err = "other:output: " + err.Error()
 			return
+		}
+		c.Outs = []string{}
+		for _, e := range list {
+			c.Outs = append(c.Outs, e.Name)
+		}
+		c.Outside = physicallyOutside(filepath.Join(ws, "src"), c.Outs)
+	}
+}
+
+// runBuildKey builds a rule of a package whose repo-map key is c.P, verbatim.
+// The package's build file and sources are put where the key, joined
+// lexically onto src, leads (possibly outside src or outside the workspace).
+func runBuildKey(c *Case, scratch string) {
+	base := filepath.Join(scratch, fmt.Sprintf("b%d", c.TreeID))
+	os.RemoveAll(base)
+	defer os.RemoveAll(base)
+	ws := filepath.Join(base, "deep", "ws")
+	src := filepath.Join(ws, "src")
+	pdir := filepath.Join(src, filepath.FromSlash(c.P))
+	c.PkgOutside = pdir != src && !strings.HasPrefix(pdir, src+"/")
+	for _, d := range []string{src, pdir, filepath.Join(pdir, "dir"), filepath.Join(pdir, "dir2"), filepath.Join(base, "outside")} {
+		os.MkdirAll(d, 0o755)
+	}
+	for _, f := range []string{"a.txt", "dir/a.txt", "dir2/b.txt", "dirfile"} {
+		os.WriteFile(filepath.Join(pdir, f), []byte(f), 0o644)
+	}
+	key, _ := json.Marshal(c.P)
+	os.WriteFile(filepath.Join(ws, "WORKSPACE.caco3"), []byte(fmt.Sprintf("repo_map {\n  Src: {%s: \"\"},\n}\n", key)), 0o644)
+	nm, _ := json.Marshal(c.Rule.Name)
+	bf := fmt.Sprintf("file_set {\n  Name: %s,\n  Files: %s,\n  Select: %s,\n  Ignore: %s,\n}\n",
+		nm, jsonxStrs(c.Rule.Files), jsonxStrs(c.Rule.Select), jsonxStrs(c.Rule.Ignore))
+	os.WriteFile(filepath.Join(pdir, "BUILD.caco3"), []byte(bf), 0o644)
+
+	before := snapDir(base)
+	log.SetOutput(io.Discard)
+	b, err := caco3.NewBuilder(ws, &caco3.Config{Root: ws})
+	if err != nil {
+		c.Err = "other:builder: " + err.Error()
+		return
+	}
+	if _, errs := b.ReadWorkspace(); errs != nil {
+		c.Err = "other:workspace"
+		return
+	}
+	name := caco3.VerifMakeRelPath(c.P, c.Rule.Name)
+	c.Out = name
+	errs := b.Build([]string{name})
+	if errs != nil {
+		cls := projErr(errs[0].Err)
+		if strings.HasPrefix(cls, "other:") {
+			cls = "other"
+		}
+		c.Err = "builderr:" + cls
+	}
+	after := snapDir(base)
+	for p, a := range after {
+		if bb, ok := before[p]; !ok || bb != a {
+			c.Changed = append(c.Changed, p)
+		}
+	}
+	sort.Strings(c.Changed)
+	if errs == nil {
+		c.Loaded = true
+		var list []struct{ Name string }
+		if bs, err := os.ReadFile(filepath.Join(ws, "out", filepath.FromSlash(name)+".fileset")); err == nil {
+			json.Unmarshal(bs, &list)
 		}
 		c.Outs = []string{}
 		for _, e := range list {
